@@ -61,6 +61,7 @@ type Step struct {
 	Rounds int `json:"rounds"`
 	// validators that stay silent while a height is played to the end (decide)
 	Silent []int `json:"silent"`
+	Times  int   `json:"times"` // decide: extra copies of every payload (over other connections)
 }
 
 // Scenario is a complete script.
@@ -117,8 +118,32 @@ type run struct {
 	exts  map[string]*payload.Extensible
 	reqs  map[[2]int]*reqInfo // (height, view) -> the proposal (crafted or the node's own)
 	owns  map[string]*payload.Extensible
-	short map[string]string
-	fed   int
+	copies map[util.Uint256][]xcopy
+	resps  map[[3]int]bool // (height, view, validator): a valid PrepareResponse was crafted
+	byHeight map[int][]namedExt // valid payloads of the fake validators by dBFT height
+	fed    int
+}
+
+type namedExt struct {
+	e    *payload.Extensible
+	name string
+}
+
+type xcopy struct {
+	inv string
+	id  string
+}
+
+// copyID names the crafted copy a payload object is (by its witness); payloads the harness did not craft go by their hash.
+func (r *run) copyID(e *payload.Extensible) string {
+	r.mu.Lock()
+	defer r.mu.Unlock()
+	for _, c := range r.copies[e.Hash()] {
+		if c.inv == string(e.Witness.InvocationScript) {
+			return c.id
+		}
+	}
+	return sid(e.Hash())
 }
 
 func sid(h util.Uint256) string { return h.StringLE()[:14] }
@@ -140,7 +165,7 @@ func newRun(t testing.TB, sp Scenario, seed int64, mode settleMode, dir string) 
 	}
 	r := &run{t: t, sp: sp, w: w, log: &evlog{}, clk: &clock{now: time.Unix(1_700_000_000, 0)}, nodes: map[int]*node{}, peers: map[int]*peer{},
 		rnd: rand.New(rand.NewSource(seed)), mode: mode, dir: dir, txs: map[string]*transaction.Transaction{}, bad: map[string]*transaction.Transaction{},
-		fake: map[string]util.Uint256{}, exts: map[string]*payload.Extensible{}, reqs: map[[2]int]*reqInfo{}, owns: map[string]*payload.Extensible{}}
+		fake: map[string]util.Uint256{}, exts: map[string]*payload.Extensible{}, reqs: map[[2]int]*reqInfo{}, owns: map[string]*payload.Extensible{}, copies: map[util.Uint256][]xcopy{}, resps: map[[3]int]bool{}, byHeight: map[int][]namedExt{}}
 	for i := 1; i <= sp.NTx; i++ {
 		name := fmt.Sprintf("t%d", i)
 		r.txs[name] = w.newTx(uint32(sp.Pre + 200))
@@ -272,6 +297,11 @@ func (r *run) craft(n *node, s Step) *payload.Extensible {
 		return e
 	case "PrepareResponse":
 		typ = tPrepareResponse
+		if s.Kind == "" && s.DH == 0 {
+			r.mu.Lock()
+			r.resps[[3]int{h, s.View, s.From}] = true
+			r.mu.Unlock()
+		}
 		var ph util.Uint256
 		r.mu.Lock()
 		if ri := r.reqs[key]; ri != nil {
@@ -320,10 +350,20 @@ func (r *run) define(s Step, e *payload.Extensible, h int, txnames []string, cur
 	if typ == "" {
 		typ = "garbage"
 	}
-	r.emit(map[string]any{"event": "xdef", "x": sid(e.Hash()), "name": s.X, "cls": cls, "kind": s.Kind, "start": int(e.ValidBlockStart), "end": int(e.ValidBlockEnd),
+	id := sid(e.Hash())
+	if cls == "bad" {
+		id += "!" + s.Kind // same content (same hash) as a good copy may exist: the witness distinguishes the copies
+	}
+	r.mu.Lock()
+	r.copies[e.Hash()] = append(r.copies[e.Hash()], xcopy{inv: string(e.Witness.InvocationScript), id: id})
+	r.mu.Unlock()
+	r.emit(map[string]any{"event": "xdef", "x": id, "hx": sid(e.Hash()), "name": s.X, "cls": cls, "kind": s.Kind, "start": int(e.ValidBlockStart), "end": int(e.ValidBlockEnd),
 		"from": s.From, "type": typ, "h": h, "view": s.View, "txs": txnames, "at": int(cur)})
 	r.mu.Lock()
 	r.exts[s.X] = e
+	if cls == "ok" && s.Kind == "" && s.DH == 0 && typ != "garbage" {
+		r.byHeight[h] = append(r.byHeight[h], namedExt{e, s.X})
+	}
 	r.mu.Unlock()
 }
 
@@ -401,6 +441,9 @@ func (r *run) settle() error {
 		sort.Ints(nids)
 		for _, id := range nids {
 			n := r.nodes[id]
+			if n.stopped.Load() {
+				continue
+			}
 			res := int64(0)
 			if n.timer != nil {
 				res = n.timer.resets.Load()
@@ -410,13 +453,20 @@ func (r *run) settle() error {
 				cur += "!" // the ledger's notifications are still on their way
 				same = -1
 			}
+			if n.queuedAt(int(n.bc.BlockHeight())+1) && time.Since(lastChange) < 400*time.Millisecond {
+				same = -1 // the service has put the next block into the queue: give the ledger a moment to take (or refuse) it
+			}
 		}
 		if cur == last {
 			same++
 		} else {
 			same, last, lastChange = 0, cur, time.Now()
 		}
-		if same >= r.mode.rounds && time.Since(lastChange) >= r.mode.idle {
+		need, idle := r.mode.rounds, r.mode.idle
+		if len(r.nodes) > 1 && idle == 0 {
+			need, idle = 10, 3*time.Millisecond // traffic between the servers of a mesh is not covered by the observers' round trips
+		}
+		if same >= need && time.Since(lastChange) >= idle {
 			return nil
 		}
 		if time.Since(start) > settleMax {
@@ -442,6 +492,9 @@ func (r *run) sync() error {
 	sort.Ints(nids)
 	for _, id := range nids {
 		n := r.nodes[id]
+		if n.stopped.Load() {
+			continue
+		}
 		pool := []string{}
 		for _, tx := range n.bc.GetMemPool().GetVerifiedTransactions() {
 			pool = append(pool, sid(tx.Hash()))
@@ -561,6 +614,37 @@ func (r *run) step(s Step) error {
 		return r.fetchBlock(s)
 	case "decide":
 		return r.decide(s)
+	case "rounds":
+		return r.rounds(s)
+	case "started":
+		return r.awaitStarted()
+	case "included":
+		r.included(s)
+	case "feedall":
+		return r.feedAll(s)
+	case "stop":
+		// a validator goes away for good (process exit): its server shuts down
+		if n := r.nodes[s.N]; n != nil && !n.stopped.Load() {
+			n.stopped.Store(true)
+			r.emit(map[string]any{"event": "stop", "n": n.id})
+			for _, p := range r.peers {
+				if p != nil && p.to == n && p.alive() {
+					p.quietClose()
+				}
+			}
+			n.srv.Shutdown()
+		}
+	case "await":
+		// block synchronisation from peers is driven by the server's protocol ticks (real time): wait for it, bounded generously;
+		// expiry is inconclusive, never a verdict here (C20 judges synchronisation)
+		n := r.nodeOf(s)
+		dl := time.Now().Add(90 * time.Second)
+		for int(n.bc.BlockHeight()) < s.I {
+			if time.Now().After(dl) {
+				return fmt.Errorf("await height %d: node at %d: %w", s.I, n.bc.BlockHeight(), errTimeout)
+			}
+			time.Sleep(2 * time.Millisecond)
+		}
 	case "gate":
 		// the next time the service asks for transactions, peer P pushes T and the node pools them BEFORE the server's
 		// RequestTx runs (an interleaving of the service's goroutine with a peer's reader, forced through the callback the
